@@ -460,3 +460,23 @@ Lemma similar_field_set_pinned :
   ParamsC32.paths_order_sensitive = 0%Z /\ ParamsC32.tags_order_sensitive = 0%Z /\
   ParamsC32.excludes_order_sensitive = 1%Z.
 Proof. vm_compute. repeat split. Qed.
+
+(* a tree whose blob is ALREADY in the destination must still be walked: its closure may be absent (an
+   interrupted copy can leave tree packs without the data packs).  The walk skips a tree only when it is in
+   visitedTrees of THIS run; presence in the destination only decides whether a blob is uploaded. *)
+Theorem tree_in_destination_still_walked g fuel dst root v' d' :
+  In root dst ->
+  copy_trees g fuel ([], dst) [root] = Some (v', d') ->
+  In root v' /\ forall b, reach g root b -> In b d'.
+Proof.
+  intros _ H. split.
+  - assert (Hc : covered g [] dst) by (intros t []).
+    destruct (copy_trees_sound g fuel [root] [] dst v' d' Hc H) as (_ & R & _ & _). apply R. left; reflexivity.
+  - intros b Hb. exact (copy_run_closure g fuel [root] dst v' d' H root b (or_introl eq_refl) Hb).
+Qed.
+
+(* destination already holds the tree blobs 10 and 20 (left by an interrupted copy) but none of the data:
+   the run walks both trees and uploads exactly the missing data blobs *)
+Example c32_nonvacuous_interrupted :
+  copy_trees ex_graph 20 ([], [10; 20]%N) [10]%N = Some ([20; 10]%N, [10; 20; 1; 2; 4; 5]%N).
+Proof. vm_compute. reflexivity. Qed.
